@@ -161,6 +161,9 @@ type Clause struct {
 	// Opaque: an ensures clause that callers only assume when they "reveal"
 	// one of its tags (keeps heavy facts out of queries that do not need them).
 	Opaque bool
+	// Uses: when set, only the callee postconditions carrying one of these tags
+	// (and untagged ones) are kept in the queries of this clause's obligations.
+	Uses []string
 }
 
 type LoopContract struct {
@@ -544,6 +547,7 @@ func (p *Program) parseContractFile(pkgName string, f *ast.File, fname string, e
 					rest = r2
 				}
 				cl.Tags, cl.Text = splitTags(rest)
+				cl.Uses, cl.Text = splitUses(cl.Text)
 				for _, t := range cl.Tags {
 					cur.Props[propOfTag(t)] = true
 				}
@@ -571,6 +575,7 @@ func (p *Program) parseContractFile(pkgName string, f *ast.File, fname string, e
 				case "invariant":
 					cl := &Clause{Kind: "invariant", Line: where}
 					cl.Tags, cl.Text = splitTags(r2)
+					cl.Uses, cl.Text = splitUses(cl.Text)
 					for _, t := range cl.Tags {
 						cur.Props[propOfTag(t)] = true
 					}
@@ -580,6 +585,7 @@ func (p *Program) parseContractFile(pkgName string, f *ast.File, fname string, e
 				case "decreases":
 					cl := &Clause{Kind: "decreases", Line: where}
 					cl.Tags, cl.Text = splitTags(r2)
+					cl.Uses, cl.Text = splitUses(cl.Text)
 					for _, t := range cl.Tags {
 						cur.Props[propOfTag(t)] = true
 					}
@@ -589,6 +595,7 @@ func (p *Program) parseContractFile(pkgName string, f *ast.File, fname string, e
 				case "exit-when", "back-when":
 					cl := &Clause{Kind: sub, Line: where}
 					cl.Tags, cl.Text = splitTags(r2)
+					cl.Uses, cl.Text = splitUses(cl.Text)
 					for _, t := range cl.Tags {
 						cur.Props[propOfTag(t)] = true
 					}
@@ -676,6 +683,25 @@ func splitWord(s string) (string, string) {
 }
 
 // splitTags: "[C14.hex,C01] expr" -> tags, expr
+// splitUses strips an optional "uses(tag, tag, ...)" prefix.
+func splitUses(s string) ([]string, string) {
+	s = strings.TrimSpace(s)
+	if !strings.HasPrefix(s, "uses(") {
+		return nil, s
+	}
+	j := strings.Index(s, ")")
+	if j < 0 {
+		return nil, s
+	}
+	var out []string
+	for _, t := range strings.Split(s[len("uses("):j], ",") {
+		if t = strings.TrimSpace(t); t != "" {
+			out = append(out, t)
+		}
+	}
+	return out, strings.TrimSpace(s[j+1:])
+}
+
 func splitTags(s string) ([]string, string) {
 	s = strings.TrimSpace(s)
 	if strings.HasPrefix(s, "[") {
